@@ -70,7 +70,7 @@ class Experiment:
         rng = self.rng
         return seqgen.random_spec(rng, n=self.n, basis="ising", dmin=6.5, spread=0.6, n_pulses=int(rng.integers(1, 3)), max_dur=int(rng.choice([40, 80, 120])), min_dur=16,
                                   wf_kinds=list(wf_kinds), amp_max=9.0, det_max=9.0, local=bool(self.n > 1 and rng.random() < 0.4), phase_mode=str(rng.choice(["zero", "const", "random", "mixed"])),
-                                  delays=bool(rng.random() < 0.3), layout=str(rng.choice(["line", "ring", "random"])) if self.n > 2 else "line")
+                                  delays=bool(rng.random() < 0.3), layout=str(rng.choice(["line", "ring", "random"])) if self.n > 2 else "line", lead_delay=int(rng.choice([0, 0, 16, 40])))
 
     def _config(self, **kw):
         import emu_sv
@@ -129,11 +129,13 @@ class Experiment:
         om = self.sd.omega.real.clone()
         de = self.sd.delta.real.clone()
         ph = self.sd.phi.real.clone()
-        mode = str(rng.choice(["as-is", "zero-phase", "random-phase", "some-zero-omega"]))
+        mode = str(rng.choice(["as-is", "zero-phase", "random-phase", "some-zero-omega", "leading-zero-rows"]))
         if mode == "zero-phase":
             ph.zero_()
         elif mode == "random-phase":
             ph = torch.tensor(rng.uniform(-3, 3, size=tuple(ph.shape)))
+        elif mode == "leading-zero-rows":  # undriven first step(s): the initial |g..g> lies exactly in the kernel of H there
+            om[: int(rng.integers(1, 3))] = 0.0
         elif mode == "some-zero-omega":
             om[rng.random(size=tuple(om.shape)) < 0.3] = 0.0
             ph[rng.random(size=tuple(ph.shape)) < 0.5] = 0.0
@@ -378,6 +380,22 @@ def run_case(case):
         tol = 2e-5 * scale + 4 * abs(fd - fd2) + 2e-8
         cnt["directions_compared"] += 1
         worst = max(worst, abs(ad - fd) / tol)
+        if abs(ad - fd) > tol and float((theta0[: (ex.shape[0] * ex.shape[1]) if ex.kind == "steps" else 0] == 0).sum()) > 0:
+            # exactly-zero amplitudes: the forward pass itself is rough there (adaptive Krylov stops early for a tiny coupling: known finding
+            # C07/C01), so small-step differences measure that roughness. If the derivative at a 10x coarser scale agrees with autograd, the
+            # disagreement is attributed to that mechanism and reported under its own key.
+            with torch.no_grad():
+                try:
+                    lo2 = {m: (float(ex.loss(theta0 + m * 10 * h * v)), float(ex.loss(theta0 - m * 10 * h * v))) for m in (1, 2, 4)}
+                    c2 = {m: (lo2[m][0] - lo2[m][1]) / (2 * m * 10 * h) for m in (1, 2, 4)}
+                    fdc, fdc2 = (4 * c2[1] - c2[2]) / 3, (4 * c2[2] - c2[4]) / 3
+                    cnt["runs"] += 6
+                    if abs(ad - fdc) <= 2e-5 * max(abs(fdc), abs(ad)) + 4 * abs(fdc - fdc2) + 2e-8:
+                        viol.append({"key": "C30:finite-difference-rough-at-exactly-zero-amplitude:krylov-early-stop",
+                                     "msg": f"{fp}: direction {name}: autograd {ad:.9g}, finite difference {fd:.9g} at h=1e-3 but {fdc:.9g} at h=1e-2", "detail": {"case": case}})
+                        continue
+                except Exception:
+                    pass
         if abs(ad - fd) > tol:
             leafname = name
             if ex.kind == "steps" and name.startswith("coordinate"):
